@@ -1,5 +1,5 @@
 """C01 Assembler and disassembler agree: encode->decode->encode is a fixpoint; golden MSP430 / RV32I."""
-import json, os, re, random
+import hashlib, json, os, re, random
 from hypothesis import strategies as st
 
 from nvlib import (Worker, WorkerCrash, WorkerTimeout, Stats, Violation, hyp_run, shard_seed, load_known)
@@ -9,7 +9,8 @@ import ref_encoders as ref
 PROP = "C01"
 RULE = ("four constructive sources of (cpu, instruction text, address): (a) every instruction text of "
         "tests/comparison (47 CPUs; the hex column is never used), (b) boundary-value mutants of their numeric "
-        "operands and register numbers, (c) renderings produced by the disassembler over the enumerated leading "
+        "operands and register numbers (a fixed sequence per line, quick = prefix of thorough, independent of VERIF_SEED "
+        "so that the explored set - and with it the list of known disagreements - is exact), (c) renderings produced by the disassembler over the enumerated leading "
         "16-bit patterns (23 more CPUs; shared scan with C07), (d) Hypothesis ASTs of the 27 MSP430 core instructions "
         "x 7 source x 4 destination modes x .b/.w and the 40 RV32I base instructions with boundary registers/"
         "immediates/targets at several addresses. For every accepted instruction: walking the decoder over the "
@@ -67,6 +68,10 @@ class Checker:
         return bytes(r.image[a + i] for i in range(len(r.image)))
 
     def report(self, cpu, kind, mn, payload):
+        # generated texts (sources a, b) are an open-ended domain: their anomalies are a separate kind so that known
+        # findings can be listed per CPU there and per mnemonic for the exhaustive scan
+        if payload.get("mode") == "roundtrip":
+            kind = kind + "_rt"
         if self.survey:
             self.s.notes.append("SURVEY\t%s\t%s\t%s\t1\t%s" % (cpu, kind, mn, json.dumps(payload)))
             return
@@ -231,16 +236,22 @@ def run(tier, seed, shard, nshards):
                 lines = progs.comparison_lines(cpu)
                 for t in lines:
                     variants = [(t, ADDRS[1])]
+                    # The mutants of a line are a fixed sequence (seeded by the line itself, not by VERIF_SEED) and the
+                    # quick tier takes a prefix of the thorough tier's sequence: the explored set is the same on
+                    # every run, so the list of known disagreements is exact for it.
+                    hseed = int.from_bytes(hashlib.sha256(("%s|%s" % (cpu, t)).encode("latin-1")).digest()[:8], "little")
+                    rnd_num = random.Random(hseed)
+                    rnd_reg = random.Random(hseed ^ 0x5bd1e995)
                     holes = [m.span(1) for m in NUM.finditer(t)]
                     for _ in range(min(nmut, 4 * len(holes))):
-                        sp = rnd.choice(holes)
-                        v = rnd.choice(BOUND)
-                        variants.append((t[:sp[0]] + ("0x%x" % v if rnd.random() < 0.5 else str(v)) + t[sp[1]:],
-                                         rnd.choice(ADDRS)))
+                        sp = rnd_num.choice(holes)
+                        v = rnd_num.choice(BOUND)
+                        variants.append((t[:sp[0]] + ("0x%x" % v if rnd_num.random() < 0.5 else str(v)) + t[sp[1]:],
+                                         rnd_num.choice(ADDRS)))
                     regs = list(re.finditer(r"(?<![A-Za-z0-9_])([a-zA-Z$]+)([0-9]{1,2})(?![0-9A-Za-z_])", t))
                     for _ in range(min(nmut // 2, 2 * len(regs))):
-                        m = rnd.choice(regs)
-                        variants.append((t[:m.start(2)] + str(rnd.randrange(0, 32)) + t[m.end(2):], ADDRS[1]))
+                        m = rnd_reg.choice(regs)
+                        variants.append((t[:m.start(2)] + str(rnd_reg.randrange(0, 32)) + t[m.end(2):], ADDRS[1]))
                     for text, addr in variants:
                         s.evaluations += 1
                         res = ck.roundtrip(cpu, addr, text)
